@@ -44,4 +44,264 @@ theorem assignPtr_ok {v : Nat} {b : Buf} {L : Ledger} (hb : BInv v b) (hL : Live
     (try simp only [Buf.ownId, Option.some.injEq, forall_eq', reduceCtorEq, false_implies, implies_true] at hL) <;>
     simp only [Buf.assignPtr] <;> buf_wp <;> mem_finish
 
+theorem appendPtr_ok_own {v : Nat} {id : Nat} {m : List Byte} {s e cap : Nat} {L : Ledger}
+    (hb : m.length = cap + 1 ∧ s ≤ e ∧ e ≤ cap ∧ m[e]? = some (some 0)) (hL : id ∈ L.live) (hbd : ∀ i ∈ L.live, i < L.next) (src len k : Nat)
+    (h : src + len ≤ m.length) (hc : src ≤ cap ∧ (src < s ∨ src + len > e)) :
+    OkM (Buf.appendPtr { store := .own id m, s := s, e := e, cap := cap } src len k) L (fun b' L' => LStep (some id) b'.ownId L L' ∧ BInv v b' ∧
+      b'.data = rd m s (e - s) ++ rd m src len) := by
+  obtain ⟨n, rfl⟩ : ∃ n, e = s + n := ⟨e - s, by omega⟩
+  simp only [Buf.appendPtr, Buf.owning, hc, and_self, if_true]
+  simp only [Buf.append, okM_bind, okM_liftO, ok_ptrSub']
+  buf_wp
+  simp only [Nat.add_sub_cancel_left, ← Nat.add_assoc, Nat.add_sub_cancel, Nat.sub_zero]
+  mem_finish
+
+theorem appendPtr_ok_own2 {v : Nat} {id : Nat} {m : List Byte} {s e cap : Nat} {L : Ledger}
+    (hb : m.length = cap + 1 ∧ s ≤ e ∧ e ≤ cap ∧ m[e]? = some (some 0)) (hL : id ∈ L.live) (hbd : ∀ i ∈ L.live, i < L.next) (src len k : Nat)
+    (h : src + len ≤ m.length) (hc : ¬ (src ≤ cap ∧ (src < s ∨ src + len > e))) :
+    OkM (Buf.appendPtr { store := .own id m, s := s, e := e, cap := cap } src len k) L (fun b' L' => LStep (some id) b'.ownId L L' ∧ BInv v b' ∧
+      b'.data = rd m s (e - s) ++ rd m src len) := by
+  have hcase : (s ≤ src ∧ src + len ≤ e) ∨ (src = cap + 1 ∧ len = 0) := by omega
+  rcases hcase with ⟨h1, h2⟩ | ⟨rfl, rfl⟩
+  · obtain ⟨off, rfl⟩ : ∃ off, src = s + off := ⟨src - s, by omega⟩
+    obtain ⟨n, rfl⟩ : ∃ n, e = s + n := ⟨e - s, by omega⟩
+    have hin : s ≤ s + off ∧ s + off ≤ s + n := by omega
+    simp only [Buf.appendPtr, Buf.owning, hc, if_false, true_and, hin, and_self, if_true, okM_bind, okM_liftO, ok_ptrSub']
+    buf_wp
+    simp only [Nat.add_sub_cancel_left, ← Nat.add_assoc, Nat.add_sub_cancel]
+    mem_finish
+  · have hin : ¬ (s ≤ cap + 1 ∧ cap + 1 ≤ e) := by omega
+    simp only [Buf.appendPtr, Buf.owning, hc, if_false, true_and, hin, okM_bind, okM_liftO, ok_ptrSub']
+    buf_wp
+    mem_finish
+
+theorem appendPtr_ok {v : Nat} {b : Buf} {L : Ledger} (hb : BInv v b) (hL : LiveIn b L) (hbd : Bounded L) (src len k : Nat)
+    (h : src + len ≤ b.store.mem.length) :
+    OkM (b.appendPtr src len k) L (fun b' L' => LStep b.ownId b'.ownId L L' ∧ BInv v b' ∧
+      b'.data = b.data ++ rd b.store.mem src len) := by
+  unfold LiveIn Bounded at *
+  obtain ⟨st, s, e, cap⟩ := b
+  cases st with
+  | own id m =>
+    simp only [BInv] at hb
+    simp only [Store.mem] at h
+    simp only [Buf.ownId, Option.some.injEq, forall_eq'] at hL
+    by_cases hc : src ≤ cap ∧ (src < s ∨ src + len > e)
+    · exact appendPtr_ok_own hb hL hbd src len k h hc
+    · exact appendPtr_ok_own2 hb hL hbd src len k h hc
+  | att m =>
+    simp only [BInv] at hb; simp only [Store.mem] at h
+    simp only [Buf.appendPtr, okM_bind, okM_liftO, ok_ptrSub']
+    buf_wp; mem_finish
+  | dflt c =>
+    simp only [BInv] at hb; simp only [Store.mem, List.length_nil] at h
+    simp only [Buf.appendPtr, okM_bind, okM_liftO, ok_ptrSub']
+    buf_wp; mem_finish
+
+/-! ### the specification slice -/
+
+theorem slice_get (q : Spec.Queue) (back fwd len i : Nat) :
+    (Spec.slice q back fwd len)[i]? =
+      if i < len then some (if back ≤ fwd + i then (q[fwd + i - back]?).getD none else none) else none := by
+  unfold Spec.slice
+  rw [List.getElem?_map]
+  by_cases h : i < len
+  · simp [List.getElem?_range h, h]
+  · simp [h, List.getElem?_eq_none (l := List.range len) (by simpa using h)]
+
+theorem slice_length (q : Spec.Queue) (back fwd len : Nat) : (Spec.slice q back fwd len).length = len := by
+  simp [Spec.slice]
+
+/-- the slice of the specification queue matches the bytes of the block the pointer denotes -/
+theorem Match.slice {sp m : List Byte} {s e back fwd len : Nat} (hm : Match sp (rd m s (e - s))) (hse : s ≤ e) (he : e ≤ m.length)
+    (hb : back ≤ s + fwd) (hl : s + fwd - back + len ≤ m.length) :
+    Match (Spec.slice sp back fwd len) (rd m (s + fwd - back) len) := by
+  rw [match_iff] at hm ⊢
+  obtain ⟨hlen, hp⟩ := hm
+  simp only [rd_length] at hlen
+  refine ⟨by simp only [slice_length, rd_length]; omega, fun i => ?_⟩
+  rw [slice_get, rd_get]
+  by_cases hi : i < len
+  · simp only [hi, if_true]
+    by_cases hbi : back ≤ fwd + i
+    · simp only [hbi, if_true]
+      have hj := hp (fwd + i - back)
+      rw [rd_get] at hj
+      by_cases hjn : fwd + i - back < e - s
+      · simp only [hjn, if_true] at hj
+        have hidx : s + (fwd + i - back) = s + fwd - back + i := by omega
+        rw [hidx] at hj
+        rcases hj with hj | hj
+        · left; rw [hj]; rfl
+        · right
+          rw [hj]
+          have hlt : s + fwd - back + i < m.length := by omega
+          rw [List.getElem?_eq_getElem hlt]
+          rfl
+      · left
+        have : sp[fwd + i - back]? = none := List.getElem?_eq_none (by omega)
+        rw [this]; rfl
+    · left; simp [hbi]
+  · right; simp [hi]
+
+/-! ### program states -/
+
+/-- well-formed raw operation in state `st`: the variable exists and the range lies inside its block -/
+def WFRaw (st : State) : RawOp → Prop
+  | .prepend v back fwd len => ∃ b, st.bufs[v]? = some b ∧ b.fits back fwd len
+  | .append v back fwd len => ∃ b, st.bufs[v]? = some b ∧ b.fits back fwd len
+  | .assign v back fwd len => ∃ b, st.bufs[v]? = some b ∧ b.fits back fwd len
+
+/-- `upd_ok` for a method that may depend on the variable's current state -/
+theorem upd_ok_at {st : State} {qs : List Spec.Queue} {v : Nat} {f : Buf → M Buf} {b : Buf}
+    (g : Spec.Queue → Spec.Queue) (hi : Inv st) (hr : Rel qs st) (hb : st.bufs[v]? = some b)
+    (hf : BInv v b → LiveIn b st.led → Bounded st.led → ∀ sp, Match sp b.data →
+      OkM (f b) st.led (fun b' L' => LStep b.ownId b'.ownId st.led L' ∧ BInv v b' ∧ Match (g sp) b'.data)) :
+    Ok (st.upd v f) (Post st (qs.set v (g (Spec.get qs v)))) := by
+  have hv : v < st.bufs.length := (List.getElem?_eq_some_iff.1 hb).1
+  have hbb : st.bufs[v] = b := by
+    have := List.getElem?_eq_getElem hv
+    rw [hb] at this
+    exact (Option.some.inj this).symm
+  obtain ⟨b', L', hb', hstep, hinv, hm⟩ :=
+    hf (hi.1 v _ hb) (liveIn_of_inv hi hb) hi.2.bounded _ (hr.2 v _ hb)
+  refine ⟨st.setBL v b' L', ?_, setBL_post hi hr hv hinv hm (hbb ▸ hstep)⟩
+  simp [State.upd, State.getBuf, hb, hb', State.setBL]
+
+theorem data_eq_rd (b : Buf) : b.data = rd b.store.mem b.s (b.e - b.s) := rfl
+
+theorem binv_window {v : Nat} {b : Buf} (hb : BInv v b) : b.s ≤ b.e ∧ b.e ≤ b.store.mem.length := by
+  obtain ⟨st, s, e, cap⟩ := b
+  cases st <;> simp only [BInv] at hb <;> simp only [Store.mem] <;> grind
+
+theorem stepRaw_ok {st : State} {qs : List Spec.Queue} (hi : Inv st) (hr : Rel qs st) (k : Nat) (r : RawOp)
+    (hw : WFRaw st r) : Ok (stepRaw st k r) (Post st (Spec.stepRaw qs r)) := by
+  cases r with
+  | prepend v back fwd len =>
+    obtain ⟨b, hb, hfit⟩ := hw
+    have hfit' := hfit
+    unfold Buf.fits at hfit'
+    rw [store_len_eq] at hfit'
+    refine upd_ok_at (fun sp => Spec.slice sp back fwd len ++ sp) hi hr hb (fun hbi hl hbd sp hm => ?_)
+    obtain ⟨hse, he⟩ := binv_window hbi
+    simp only [withPtr, hfit, if_true]
+    refine (prependPtr_ok hbi hl hbd _ len k hfit'.2).mono (fun b' L' h => ⟨h.1, h.2.1, ?_⟩)
+    rw [h.2.2]
+    exact (Match.slice (data_eq_rd b ▸ hm) hse he hfit'.1 hfit'.2).append hm
+  | append v back fwd len =>
+    obtain ⟨b, hb, hfit⟩ := hw
+    have hfit' := hfit
+    unfold Buf.fits at hfit'
+    rw [store_len_eq] at hfit'
+    refine upd_ok_at (fun sp => sp ++ Spec.slice sp back fwd len) hi hr hb (fun hbi hl hbd sp hm => ?_)
+    obtain ⟨hse, he⟩ := binv_window hbi
+    simp only [withPtr, hfit, if_true]
+    refine (appendPtr_ok hbi hl hbd _ len k hfit'.2).mono (fun b' L' h => ⟨h.1, h.2.1, ?_⟩)
+    rw [h.2.2]
+    exact hm.append (Match.slice (data_eq_rd b ▸ hm) hse he hfit'.1 hfit'.2)
+  | assign v back fwd len =>
+    obtain ⟨b, hb, hfit⟩ := hw
+    have hfit' := hfit
+    unfold Buf.fits at hfit'
+    rw [store_len_eq] at hfit'
+    refine upd_ok_at (fun sp => Spec.slice sp back fwd len) hi hr hb (fun hbi hl hbd sp hm => ?_)
+    obtain ⟨hse, he⟩ := binv_window hbi
+    simp only [withPtr, hfit, if_true]
+    refine (assignPtr_ok hbi hl hbd _ len k hfit'.2).mono (fun b' L' h => ⟨h.1, h.2.1, ?_⟩)
+    rw [h.2.2]
+    exact Match.slice (data_eq_rd b ▸ hm) hse he hfit'.1 hfit'.2
+
+/-- a raw operation that succeeds had its range inside the block (the model rejects everything else) -/
+theorem stepRaw_wf {st st' : State} {k : Nat} {r : RawOp} (h : stepRaw st k r = some st') : WFRaw st r := by
+  have key : ∀ {v back fwd len : Nat} {f : Buf → Nat → M Buf}, st.upd v (withPtr back fwd len f) = some st' →
+      ∃ b, st.bufs[v]? = some b ∧ b.fits back fwd len := by
+    intro v back fwd len f h
+    obtain ⟨b, b', L', hb, hf, _⟩ := upd_elim h
+    refine ⟨b, hb, ?_⟩
+    by_cases hfit : b.fits back fwd len
+    · exact hfit
+    · simp [withPtr, hfit, fault] at hf
+  cases r with
+  | prepend v back fwd len => exact key h
+  | append v back fwd len => exact key h
+  | assign v back fwd len => exact key h
+
+/-- well-formed mixed operation in state `st` -/
+def WFX (st : State) : XOp → Prop
+  | .std op => WFOp st.bufs.length st.regs op
+  | .raw r => WFRaw st r
+
+/-- a mixed history is well-formed when every operation is well-formed in the state it is executed in -/
+def WFRunX : State → List (XOp × Nat) → Prop
+  | _, [] => True
+  | st, (op, k) :: ops => WFX st op ∧ ∀ st1, stepX st k op = some st1 → WFRunX st1 ops
+
+theorem stepX_ok {st : State} {qs : List Spec.Queue} (hi : Inv st) (hr : Rel qs st) (k : Nat) (op : XOp)
+    (hw : WFX st op) : Ok (stepX st k op) (Post st (Spec.stepX st.regs qs op)) := by
+  cases op with
+  | std op => exact step_ok hi hr k op hw
+  | raw r => exact stepRaw_ok hi hr k r hw
+
+theorem stepX_wf {st st' : State} {k : Nat} {op : XOp} (h : stepX st k op = some st') : WFX st op := by
+  cases op with
+  | std op => exact step_wf h
+  | raw r => exact stepRaw_wf h
+
+theorem runX_ok : ∀ (ops : List (XOp × Nat)) {st : State} {qs : List Spec.Queue}, Inv st → Rel qs st → WFRunX st ops →
+    Ok (runX st ops) (Post st (Spec.runX st.regs qs (ops.map Prod.fst)))
+  | [], st, qs, hi, hr, _ => (ok_some _ _).2 ⟨hi, hr, rfl, rfl⟩
+  | (op, k) :: ops, st, qs, hi, hr, hw => by
+    obtain ⟨st1, h1, p1⟩ := stepX_ok hi hr k op hw.1
+    obtain ⟨st2, h2, p2⟩ := runX_ok ops p1.1 p1.2.1 (hw.2 st1 h1)
+    refine ⟨st2, ?_, p1.trans (p1.2.2.1 ▸ p2)⟩
+    simp [runX, h1, h2]
+
+theorem runX_post : ∀ (ops : List (XOp × Nat)) {st st' : State} {qs : List Spec.Queue}, Inv st → Rel qs st →
+    runX st ops = some st' → Post st (Spec.runX st.regs qs (ops.map Prod.fst)) st'
+  | [], st, st', qs, hi, hr, h => by
+    simp only [runX, Option.some.injEq] at h
+    subst h
+    exact ⟨hi, hr, rfl, rfl⟩
+  | (op, k) :: ops, st, st', qs, hi, hr, h => by
+    cases h1 : stepX st k op with
+    | none => simp [runX, h1] at h
+    | some st1 =>
+      have h2 : runX st1 ops = some st' := by simpa [runX, h1] using h
+      obtain ⟨st1', h1', p1⟩ := stepX_ok hi hr k op (stepX_wf h1)
+      rw [h1] at h1'
+      cases h1'
+      have p2 := runX_post ops p1.1 p1.2.1 h2
+      exact p1.trans (p1.2.2.1 ▸ p2)
+
+/-- the terminator of an owning variable in any state satisfying the invariant -/
+theorem terminator_of_inv {st : State} (hi : Inv st) {v : Nat} {b : Buf} (hb : st.getBuf v = some b)
+    (hown : b.owning = true) : Nstd.Buffer.terminator st v = some (some (some 0)) := by
+  have hbi := hi.1 v b hb
+  have hlive := hi.2.live_of_owned v b
+  obtain ⟨store, s, e, cap⟩ := b
+  cases store with
+  | own id m =>
+    simp only [BInv] at hbi
+    obtain ⟨hl, _, he, ht⟩ := hbi
+    have hid : id ∈ st.led.live := hlive id hb rfl
+    have hlt : e < m.length := by omega
+    have hget : m[e] = some 0 := by
+      rw [List.getElem?_eq_getElem hlt] at ht
+      exact Option.some.inj ht
+    have hrd : rdList m e 1 = some [some 0] := by
+      have h1 : e + 1 ≤ m.length := by omega
+      simp only [rdList, h1, if_true, Option.some.injEq]
+      rw [List.drop_eq_getElem_cons hlt, hget]
+      simp
+    have hload : (Store.own id m).load e 1 st.led = some ([some 0], st.led) := by
+      have : OkM ((Store.own id m).load e 1) st.led (fun c L' => c = [some 0] ∧ L' = st.led) := by
+        simp only [Store.load, okM_bind, okM_checkLive, okM_liftO, hrd, ok_some]
+        simp [hid]
+      obtain ⟨c, L', hc, rfl, rfl⟩ := this
+      exact hc
+    simp only [Nstd.Buffer.terminator, hb, Option.bind_eq_bind, Option.bind_some, hload]
+    rfl
+  | att m => simp [Buf.owning] at hown
+  | dflt c => simp [Buf.owning] at hown
+
 end Nstd.Buffer
